@@ -18,7 +18,7 @@ func init() {
 		Property: "C13",
 		Explanation: "Pipeline obligations of the ::/64 expansion (the set semantics over all address lists is NOT decided): R-C13-1 an address is dropped under exactly Is4, IsLinkLocalUnicast, length mismatch with the stanza, Temporary, Tentative, or already-seen; " +
 			"R-C13-2 the kept value is a.Address.Masked(), guarded by a failed membership test on a set keyed by that value, which is inserted on the same path; R-C13-3 every success return sorts the result with x.Addr().Compare(y.Addr()) (ascending); " +
-			"R-C13-4 a failure to list addresses reaches the caller of Interface.RouterAdvertisement as a non-nil error through every hop; R-C13-5 apply builds one PrefixInformation per element with the stanza's flags/lifetimes; address flags come from the like-named IFA_F_* bits",
+			"R-C13-4 a failure to list addresses reaches the caller of Interface.RouterAdvertisement as a non-nil error through every hop; R-C13-5 apply builds one PrefixInformation per element with the stanza's flags/lifetimes; address flags come from the like-named IFA_F_* bits R-C13-6 listing failures are returned (error discipline incl. helpers and shadowed named results); R-C13-7 the parser's prefix-overlap rejection.",
 		Assumptions: []string{"Go type checker and go/ssa construction are correct", "slices.SortStableFunc sorts ascending by the comparator; netip methods have their documented meaning"},
 		NotCovered:  []string{"the set-semantics claim over all address lists (order/multiplicity independence) as a whole"},
 		Run:         runC13,
@@ -27,7 +27,7 @@ func init() {
 		Property: "C14",
 		Explanation: "Pipeline obligations of the :: RDNSS wildcard (that the pairwise relation is a total order is NOT decided): R-C14-1 an address is skipped under exactly Is4, Deprecated, Temporary, Tentative; " +
 			"R-C14-2 best is folded with betterRDNSS(best, a) over every surviving element and an invalid final best is an error; R-C14-3 ranking table of betterRDNSS/isStable/isEUI64 (stability first; flags ValidForever, ManageTemporaryAddresses, StablePrivacy, EUI-64 bytes 11,12 = ff,fe; classes in order private, global unicast, link-local; only-current ⇒ current, only-best ⇒ best, ties ⇒ current.Less(best)); " +
-			"R-C14-4 the option's servers are [current()] ++ r.Servers in auto mode and r.Servers otherwise; parseRDNSS sorts static servers, does not store ::, rejects duplicates",
+			"R-C14-4 the option's servers are [current()] ++ r.Servers in auto mode and r.Servers otherwise; parseRDNSS sorts static servers, does not store ::, rejects duplicates R-C14-5 listing failures are returned.",
 		Assumptions: []string{"Go type checker and go/ssa construction are correct", "netip.Addr predicates have their documented meaning"},
 		NotCovered:  []string{"that the pairwise comparator induces a total order (permutation independence)"},
 		Run:         runC14,
@@ -36,7 +36,7 @@ func init() {
 		Property: "C15",
 		Explanation: "Pipeline obligations of the ::/0 route expansion (the maximal-antichain semantics over all route lists is NOT decided): R-C15-1 a route is dropped under exactly Is4, IsSingleIP, covered-by-another, or already-emitted; " +
 			"R-C15-2 the covered test excludes the route itself, tests containment of the route in the other prefix, and requires the other prefix to be shorter; R-C15-3 each kept route is emitted once (membership test + insert, or compaction after sorting); " +
-			"R-C15-4 sorted ascending before return, errors propagate, one RouteInformation per element with the stanza's preference/lifetime; LoopbackRoutes considers up loopback interfaces and the main table",
+			"R-C15-4 sorted ascending before return, errors propagate, one RouteInformation per element with the stanza's preference/lifetime; LoopbackRoutes considers up loopback interfaces and the main table R-C15-5 listing failures are returned; R-C15-6 the parser rejects overlapping or repeated static routes and a repeated ::/0 wildcard.",
 		Assumptions: []string{"Go type checker and go/ssa construction are correct", "netip.Prefix.Contains/Bits/Overlaps have their documented meaning"},
 		NotCovered:  []string{"the maximal non-overlapping set semantics over all route lists as a whole"},
 		Run:         runC15,
